@@ -220,7 +220,10 @@ def persist(obj, reg, op, scratch):
     if route == "pickle":
         return ("pickle", pickle.dumps(obj, protocol=op.get("proto", 4)))
     if route == "pickle_nested":
-        return ("pickle_nested", pickle.dumps({"a": [obj, (obj, 1.0)], "b": obj}, protocol=op.get("proto", 4)))
+        # a container: the object several times, and a SIBLING - another array of the same registry - next to it
+        sib = unyt.unyt_array(np.array([1.0, 2.0]), "m" if "m" in reg.lut else "", registry=reg)
+        return ("pickle_nested", pickle.dumps({"a": [obj, (obj, 1.0)], "b": obj, "sibling": sib, "raw": np.arange(3)},
+                                              protocol=op.get("proto", 4)))
     if route in ("deepcopy", "copy", "method_copy", "unitcopy", "unitcopy_deep", "deepcopy_nested", "regdeepcopy"):
         return (route, None)
     if route in ("str", "repr"):
@@ -246,6 +249,7 @@ def restore(payload, obj, reg, scratch):
     if route == "pickle_nested":
         d = pickle.loads(data)
         r = d["a"][1][0]
+        restore.sibling = d.get("sibling")
         return r, r.units.registry
     if route == "deepcopy":
         r = copy.deepcopy(obj)
@@ -503,6 +507,8 @@ def gen_run(r, cfg):
     if route == "savetxt":
         rt["io_fault"] = r.choice([None, None, 10, 40, 90, 200])
         rt["ncols"] = r.choice([1, 1, 2, 3])
+        rt["footer"] = r.choice([None, None, "end of data", "a b c", "m s"])
+        rt["delimiter"] = r.choice([None, None, ",", "\t"])
         rt["usecols"] = r.choice([None, None, [1, 0], [0], [1], [2, 0], [2, 1, 0], [0, 2]])
     if route not in ("pickle", "pickle_nested", "json", "str", "repr", "savetxt") and rt["chaos"] in ("restart", "fresh_process"):
         rt["chaos"] = r.choice(["none", "clear_lru", "clear_sympy"])  # in-memory copies do not survive a restart
@@ -814,6 +820,19 @@ class Sim11:
             ok = apply_edit(reg, post["edit"])
             if rreg.lut is not reg.lut:
                 ok = apply_edit(rreg, post["edit"]) and ok
+            sib = getattr(restore, "sibling", None) if route == "pickle_nested" else None
+            if ok and sib is not None and sib.units.registry is not rreg:
+                # the sibling restored from the same payload has a registry of its own: the edit made through
+                # the first restored object's registry must not show in it
+                sib_table = table_plain(sib.units.registry)
+                want = {k: v for k, v in after["table"].items()}
+                if sib_table != want and not getattr(self, "filled_in", None):
+                    changed = sorted(k for k in set(sib_table) | set(want) if sib_table.get(k) != want.get(k))[:6]
+                    self.violate("O1-sibling-registry-changed",
+                                 {"route": rt, "changed": changed,
+                                  "note": "two arrays of one registry restored from one payload: editing the "
+                                          "registry of one changed the registry contents of the other"},
+                                 [route, "table"])
             if ok:
                 self.fault("registries_edited_after_restore")
                 for j, fop in enumerate(post.get("follows", [])):
@@ -935,11 +954,17 @@ class Sim11:
         if usecols is not None and (ncols == 1 or any(c >= ncols for c in usecols)):
             usecols = None
         cols_before = [rw.describe(c, Stub(orig.reg)) for c in cols]
+        save_kw, load_kw = {}, {}
+        if rt.get("footer"):
+            save_kw["footer"] = rt["footer"]
+        if rt.get("delimiter"):
+            save_kw["delimiter"] = rt["delimiter"]
+            load_kw["delimiter"] = rt["delimiter"]
         limit = rt.get("io_fault")
         fw = FaultyWriter(limit)
         raised = None
         try:
-            unyt.savetxt(fw, cols if len(cols) > 1 else cols[0], header="hdr")
+            unyt.savetxt(fw, cols if len(cols) > 1 else cols[0], header="hdr", **save_kw)
         except OSError as e:
             raised = e
         except Exception as e:
@@ -960,7 +985,7 @@ class Sim11:
             # faults stop: a retry must succeed (progress within one step)
             fw = FaultyWriter(None)
             try:
-                unyt.savetxt(fw, cols if len(cols) > 1 else cols[0], header="hdr")
+                unyt.savetxt(fw, cols if len(cols) > 1 else cols[0], header="hdr", **save_kw)
             except Exception as e:
                 if rw.harness_frame(e.__traceback__):
                     raise
@@ -984,10 +1009,10 @@ class Sim11:
                     warnings.simplefilter("ignore")
                     dt = "complex" if build["dtype"].startswith("complex") else "float"
                     if usecols is not None:
-                        loaded = unyt.loadtxt(path, dtype=dt, usecols=tuple(usecols))
+                        loaded = unyt.loadtxt(path, dtype=dt, usecols=tuple(usecols), **load_kw)
                         self.fault("loadtxt_usecols")
                     else:
-                        loaded = unyt.loadtxt(path, dtype=dt)
+                        loaded = unyt.loadtxt(path, dtype=dt, **load_kw)
             except Exception as e:
                 if rw.harness_frame(e.__traceback__):
                     raise
